@@ -526,6 +526,10 @@ func formatValue(v interface{}) string {
 		return fmt.Sprintf("\"%s\"", v.Format(timeFormat))
 	case *Condition:
 		return v.String()
+	case nil:
+		// A nil value is written `null` in PQL (e.g. `Row(v != null)`); "%v" would
+		// render it as `<nil>`, which a node receiving the forwarded query cannot parse.
+		return "null"
 	default:
 		return fmt.Sprintf("%v", v)
 	}
